@@ -89,6 +89,8 @@ def ResOkK (s : Core) : Res → Prop
   | .find k must r => (must = true → r ≠ none) ∧ ∀ n, r = some n → n ∈ s.chain 0 ∧ s.key n = ⟨k + 1, 0⟩
   | .trav seen snap => seen.Sublist (s.chain 0) ∧ ∀ x ∈ snap, x ∈ seen
   | .misuse => True
+  | .threw none => True
+  | .threw (some n) => n ∈ s.chain 0 ∧ n ≠ 0
 
 def succNodeK : Tid × Res → Option Node
   | (_, .ins _ true n) => some n
@@ -270,6 +272,10 @@ theorem resokk_ext {cfg : Cfg} {t : Tid} {s s' : Core} {hd : Bool} (g : KGood cf
     · rw [hc]; exact h.1
     · rw [hc]; exact h.1.trans (sublist_insAfter _ _ _)
   | misuse => trivial
+  | threw o =>
+    cases o with
+    | none => trivial
+    | some n => exact ⟨e.mem h.1, h.2⟩
 
 end SkipList
 end TbbVerif.C12
